@@ -33,6 +33,10 @@ type scen struct {
 	// that the enumerated records sit around a boundary of the sequence-number encoding (DTLS 1.3 puts 16
 	// bits on the wire: multiples of 65536) without 65536 writes. Eager reader only.
 	PresetSeq uint64
+	// Resumed (DTLS 1.2 only): after the handshake the receiver is exported (ConnectionState) and brought back
+	// with ResumeWithOptions and the same options, replay window included; the records are written and
+	// arrive afterwards. The configured window has to hold on the resumed association as well.
+	Resumed bool
 }
 
 func (s scen) effW() int {
@@ -61,6 +65,9 @@ func (s scen) String() string {
 	}
 	if s.PresetSeq > 0 {
 		ku += fmt.Sprintf("/at%d", s.PresetSeq)
+	}
+	if s.Resumed {
+		ku += "/resumed"
 	}
 	return fmt.Sprintf("%s/%s/%s/W%s/n%d%s", s.V.Name, dir, mode, w, s.N, ku)
 }
@@ -161,6 +168,34 @@ func runSeqIn(w *world.World, p *world.PKI, sc scen, arrivals []int, ex *exec) {
 		return
 	}
 
+	if sc.Resumed {
+		x := pr.S
+		if sc.S2C {
+			x = pr.C
+		}
+		st, ok := x.Conn.ConnectionState()
+		if !ok {
+			ex.Skip = "no connection state to export"
+			return
+		}
+		x.Detach()
+		nx, rerr := x.ResumeFrom(p, &st)
+		if rerr != nil {
+			ex.Violation, ex.Key = fmt.Sprintf("%s: ResumeWithOptions refused the exported state: %v", sc, rerr), "resume-refused"
+			return
+		}
+		hs := nx.StartResumedHandshake()
+		w.Settle()
+		if !hs.OK() {
+			ex.Violation, ex.Key = fmt.Sprintf("%s: the resumed receiver did not start: %v", sc, hs), "resume-refused"
+			return
+		}
+		if sc.S2C {
+			pr.C = nx
+		} else {
+			pr.S = nx
+		}
+	}
 	snd, rcv := pr.C, pr.S
 	if sc.S2C {
 		snd, rcv = pr.S, pr.C
